@@ -873,14 +873,54 @@ func nonMinimalUnknown(T *setType, e0, e1 *expectation) bool {
 	return false
 }
 
-func sigFor(code string, T *setType, e0, e1 *expectation) string {
+// normItems re-encodes the length prefixes of an encoding made of canonical items
+// (0b 10 <id> 1a <len> <payload> 0c)* minimally; anything else is returned unchanged.
+func normItems(b []byte) []byte {
+	var out []byte
+	in := b
+	for len(in) > 0 {
+		if len(in) < 2 || in[0] != 0x0b || in[1] != 0x10 {
+			return b
+		}
+		id, n := protowire.ConsumeVarint(in[2:])
+		if n < 0 || len(in) < 2+n+1 || in[2+n] != 0x1a {
+			return b
+		}
+		v, m := protowire.ConsumeBytes(in[3+n:])
+		if m < 0 || len(in) < 3+n+m+1 || in[3+n+m] != 0x0c {
+			return b
+		}
+		out = append(out, 0x0b, 0x10)
+		out = protowire.AppendVarint(out, id)
+		out = append(out, 0x1a)
+		out = protowire.AppendBytes(out, v)
+		out = append(out, 0x0c)
+		in = in[3+n+m+1:]
+	}
+	return out
+}
+
+func normDigest(s string) string {
+	if strings.HasPrefix(s, "ok ") && s != "ok marshal-err" {
+		return "ok " + vh.Hex(normItems(vh.UnHex(s[3:])))
+	}
+	if s != "err" && s != "" && s != "ok marshal-err" {
+		return vh.Hex(normItems(vh.UnHex(s)))
+	}
+	return s
+}
+
+// sigFor classifies a failure as one of the two known findings. a, b: the two digests that differ
+// (for the non-minimal-length finding they must agree once length prefixes are normalised).
+func sigFor(code string, T *setType, e0, e1 *expectation, a, b string) string {
 	if e0 == nil || e1 == nil {
 		return ""
 	}
 	switch {
 	case strings.HasPrefix(code, "gen:roundtrip-default") && e1.dupKnown && !reflectBuild:
 		return sigLazyDup
-	case (code == "eq:gen-dyn" || code == "fast-vs-reflection") && nonMinimalUnknown(T, e0, e1) && bytes.Equal(normRecords(e1.unknown), e0.unknown):
+	case (code == "eq:gen-dyn" || code == "fast-vs-reflection") && nonMinimalUnknown(T, e0, e1) &&
+		bytes.Equal(normRecords(e1.unknown), e0.unknown) && a != "" && normDigest(a) == normDigest(b):
 		return sigNonMinLen
 	}
 	return ""
@@ -947,7 +987,7 @@ func runBytesCase(c *C, p *peer, cs *Case) {
 		}
 	}
 	for _, v := range mine.Viol {
-		fail(c, "property fails on the implementation: "+v, in, sigFor(v, T, e0, e1))
+		fail(c, "property fails on the implementation: "+v, in, sigFor(v, T, e0, e1, mine.D["gen"], mine.D["dyn"]))
 	}
 	if cont, ok := mine.D["cont"]; ok {
 		c.Check(cont == mine.D["genNL"], "MessageSet nested in MessageSetContainer decodes differently from the top-level MessageSet", in, "")
@@ -959,21 +999,31 @@ func runBytesCase(c *C, p *peer, cs *Case) {
 		}
 		c.Check(theirs.D["reflectBuild"] != fmt.Sprint(reflectBuild), "peer process is not the other build", nil, "")
 		for _, v := range theirs.Viol {
-			fail(c, "property fails on the implementation (reflection build): "+v, in, sigFor(v, T, e0, e0))
+			fail(c, "property fails on the implementation (reflection build): "+v, in, "")
 		}
 		if c.HasModel() {
 			for _, cfg := range []string{"gen", "genNL", "dyn"} {
 				c.Compare("reflection build: proto.Unmarshal+deterministic Marshal ("+cfg+")", in, theirs.D[cfg], e0.verdict)
 			}
 		}
-		for _, k := range []string{"gen", "genNL", "dyn", "gen.size", "gen.init", "gen.strict", "dyn.strict", "gen.discard", "dyn.discard", "cont"} {
-			if k == "gen.size" && mine.D["gen.def"] != mine.D["genNL.def"] {
-				continue // the lazily kept encoding is passed through; its size is checked against its length
+		for _, k := range []string{"gen", "genNL", "dyn", "gen.discard", "dyn.discard", "cont", "gen.size", "gen.init", "gen.strict", "dyn.strict"} {
+			if mine.D[k] == theirs.D[k] {
+				continue
 			}
-			if mine.D[k] != theirs.D[k] {
-				fail(c, "fast path (this build) and reflection path (peer build) disagree on "+k,
-					map[string]any{"kind": cs.Kind, "type": cs.Type, "hex": cs.Hex, "fast": trunc(mine.D[k]), "reflection": trunc(theirs.D[k])}, sigFor("fast-vs-reflection", T, e0, e1))
+			sg := ""
+			switch k {
+			case "gen", "genNL", "gen.discard", "cont":
+				sg = sigFor("fast-vs-reflection", T, e0, e1, mine.D[k], theirs.D[k])
+			case "gen.size":
+				if mine.D["gen.def"] != mine.D["genNL.def"] {
+					continue // the lazily kept encoding is passed through; its size is checked against its length
+				}
+				if mine.D["gen"] != theirs.D["gen"] {
+					continue // the encodings differ (reported above), so do their sizes
+				}
 			}
+			fail(c, "fast path (this build) and reflection path (peer build) disagree on "+k,
+				map[string]any{"kind": cs.Kind, "type": cs.Type, "hex": cs.Hex, "fast": trunc(mine.D[k]), "reflection": trunc(theirs.D[k])}, sg)
 		}
 	}
 	ok := strings.HasPrefix(mine.D["gen"], "ok ")
